@@ -128,6 +128,8 @@ class Maker:
 
     def pick(self, method, param, force, exclude=()):
         if param in force:
+            if force[param] in exclude:
+                raise Infeasible()
             return force[param]
         return self.rng.choice([c for c in CV.OPTION_SPACE[method][param] if c not in exclude])
 
@@ -398,7 +400,7 @@ class Maker:
     def add(self, S, L, bc, force, real=False, spec=None, Q=None):
         rng = self.rng
         m = 'add'
-        ocls = self.pick(m, 'other', force, exclude=('MPS',) if bc == 'segment' else ())
+        ocls = self.pick(m, 'other', force, exclude=('MPS', 'other-charge-gauge') if bc == 'segment' else ())
         op = {'op': m}
         if ocls == 'self':
             op['other_x'] = 'self'
@@ -463,7 +465,7 @@ class Maker:
         if c == 'variational':
             if L < 3:
                 raise Infeasible()
-            op['options'] = {'max_sweeps': 2, 'min_sweeps': 1}
+            op['options'] = {'max_sweeps': 2, 'min_sweeps': 1, 'max_trunc_err': None}
         return [op]
 
     def enlarge_chi(self, S, L, bc, force, real=False):
@@ -471,7 +473,7 @@ class Maker:
         m = 'enlarge_chi'
         c = self.pick(m, 'extra_legs', force)
         nb = L + 1 if bc != 'infinite' else L
-        inner = range(1, L) if bc == 'finite' else range(nb)
+        inner = range(1, L) if bc != 'infinite' else range(nb)
 
         def entry(cls):
             if cls == 'int':
@@ -490,7 +492,7 @@ class Maker:
                     hit = hit or True
             b = rng.choice(list(inner))
             extra[b] = entry(c)
-        if bc == 'finite':
+        if bc != 'infinite':          # (the outer legs of a finite chain are trivial, those of a segment belong to its environment)
             extra[0] = extra[-1] = rng.choice([0, None]) if c in ('None',) else 0
         op = {'op': m, 'extra': extra}
         if self.pick(m, 'random_fct', force) == 'default':
@@ -622,6 +624,8 @@ class Maker:
         raise Infeasible()
 
     def gauge_total_charge(self, S, L, bc, force, real=False):
+        """consistent requests only: a finite / segment chain fixes its right leg by the left leg and the tensor charges, an
+        infinite one keeps the charge of its unit cell (qtotal_rel: resolved by the runner relative to the present total)"""
         rng = self.rng
         m = 'gauge_total_charge'
         if not S.mod:
@@ -632,20 +636,29 @@ class Maker:
             return [rng.randint(-2, 2) for _ in range(nq)]
         op = {'op': m}
         c = self.pick(m, 'qtotal', force)
+        a, b = self.pick(m, 'vL_leg', force), self.pick(m, 'vR_leg', force)
+        if b == 'LegCharge' or (bc == 'infinite' and a == 'LegCharge'):
+            if ('vL_leg' in force and a != 'LegCharge') or ('qtotal' in force and c not in ('default', 'None')):
+                raise Infeasible()
+            a = b = 'LegCharge'
+            if c not in ('default', 'None'):
+                c = rng.choice(['default', 'None'])
+        elif bc == 'infinite' and c in ('default', 'None'):
+            if 'qtotal' in force:
+                raise Infeasible()
+            c = rng.choice(['charge', 'list'])
         if c == 'None':
             op['qtotal'] = None
         elif c == 'charge':
-            op['qtotal'] = q()
-        elif c == 'list':
-            op['qtotal'] = [q() for _ in range(L)]
-        a, b = self.pick(m, 'vL_leg', force), self.pick(m, 'vR_leg', force)
-        if bc == 'infinite' and (a == 'LegCharge') != (b == 'LegCharge'):
-            a = b = 'LegCharge'
-        if a == 'LegCharge' and b == 'LegCharge' and c in ('charge', 'list'):
-            # the total charge and both outer legs over-determine the gauge unless they are consistent: only one leg
-            b = 'default' if bc != 'infinite' else b
             if bc == 'infinite':
-                op.pop('qtotal', None)
+                op['qtotal_rel'] = 'total'
+            else:
+                op['qtotal'] = q()
+        elif c == 'list':
+            if bc == 'infinite':
+                op['qtotal_rel'] = [q() for _ in range(L - 1)]
+            else:
+                op['qtotal'] = [q() for _ in range(L)]
         if a != 'default':
             op['vL_leg'] = None if a == 'None' else q()
         if b != 'default':
@@ -670,7 +683,7 @@ def follow_ups(mk, S_kinds, bc, SI, zero_S=False, real=False, n=1):
         r = rng.random()
         try:
             if r < 0.35:
-                out += mk.apply_local_op(S, L, bc, {'op': rng.choice(['Array:1', 'Array:2']), 'unitary': rng.choice(['None', 'default']),
+                out += mk.apply_local_op(S, L, bc, {'op': rng.choice(['Array:1'] if zero_S else ['Array:1', 'Array:2']), 'unitary': rng.choice(['None', 'default']),
                                                     'understood_infinite': 'True'}, real)
             elif r < 0.5 and not any(p.any() for p in S.par) or r < 0.5 and all(p.any() for p in S.par):
                 o = mk.swap_sites(S, L, bc, {'swap_op': 'default', 'trunc_par': 'default', 'i': rng.choice(['0', 'last'])}, real)
@@ -798,8 +811,14 @@ def gen_goal_case(rng, nrng, SI, goal):
                 nzi = np.unravel_index(int(np.argmax(np.abs(vec))), vec.shape)
                 S0 = G.Sites(spec['sites'], SI)
                 kw['Q'] = S0.valid(np.sum([S0.q[i][nzi[i]] for i in range(len(S0.kinds))], axis=0)) if S0.mod else []
-            call = getattr(mk, m)(S, L, bc, force, real=real, **kw)
+            if m == 'group_split':
+                call = mk.group_sites(S, L, bc, {'split:' + k_: v_ for k_, v_ in force.items()}, real=real)
+            else:
+                call = getattr(mk, m)(S, L, bc, force, real=real, **kw)
             ops += call
+            if any(o_.get('trunc_class') == 'truncating' or (o_['op'] == 'group_split' and o_.get('trunc') is None) or
+                   (bc == 'infinite' and o_['op'] in ('compress', 'compress_svd') and o_.get('trunc_class') != 'no-truncation') for o_ in call):
+                ops.append({'op': 'canonical_form', 'renormalize': False})     # truncation leaves the canonical form only approximately
             kinds_now = kinds_after(kinds_now, call)
             # later operations on the result
             last = call[-1]
